@@ -19,11 +19,16 @@ func init() {
 }
 
 func genSlowSeal(_ *Rand, n int, tier string, w *bufio.Writer) {
-	for _, seed := range []int64{51, 138, 244, 346, 1143, 1, 2, 3}[:n] {
+	seeds := []int64{51, 138, 244, 346, 1143, 1, 2, 3, 11, 12, 13, 14, 15, 16, 17, 18, 19, 20, 21, 22}
+	for i, seed := range seeds[:n] {
+		// the seeds after the first eight run without seals (one long epoch)
+		noSeal = i >= 8
 		fmt.Fprintf(w, "# case slowseal-%d\n", seed)
 		genSlowSealCase(seed, w)
 	}
 }
+
+var noSeal bool
 
 func genSlowSealCase(seed int64, w *bufio.Writer) {
 	r := rand.New(rand.NewSource(seed))
@@ -46,7 +51,9 @@ func genSlowSealCase(seed int64, w *bufio.Writer) {
 		if r.Intn(2) == 0 {
 			ws = []int{2, 1, 1, 1}
 		}
-		emit("seal %d %d 1:%d 2:%d 3:%d 4:%d", ep, f, ws[0], ws[1], ws[2], ws[3])
+		if !noSeal {
+			emit("seal %d %d 1:%d 2:%d 3:%d 4:%d", ep, f, ws[0], ws[1], ws[2], ws[3])
+		}
 	}
 	emit("inst 0 3")
 	emit("inst 1 1")
@@ -64,7 +71,14 @@ func genSlowSealCase(seed int64, w *bufio.Writer) {
 	var all []uint64
 	for epoch := 1; epoch <= epochs; epoch++ {
 		heads := map[int]*head{}
-		for cnt := 0; cnt < 3000; cnt++ {
+		limit := 3000
+		if noSeal {
+			limit = 250
+			if epoch > 1 {
+				break
+			}
+		}
+		for cnt := 0; cnt < limit; cnt++ {
 			self := pick()
 			seq, lamport := uint64(1), uint64(1)
 			var ps []string
